@@ -333,21 +333,15 @@ theorem fromJsonCell_closed (j : PyVal) (c : Cell) (h : fromJsonCell j = .ok c) 
   obtain ⟨ts, hts, h⟩ := bind_ok h
   obtain ⟨m, hm, h⟩ := bind_ok h
   obtain ⟨col', hcol', h⟩ := bind_ok h
-  split at h
-  · cases h
-  · rename_i hany
-    simp only [pure_eq_ok, Except.ok.injEq] at h
+  · simp only [pure_eq_ok, Except.ok.injEq] at h
     subst h
     constructor
     · intro hg
       apply Cell.build_ok _ _ _ _ _ _ _ _ _ _ _ _ (jsonCoords_ne j _ coords hco)
         (gc_canon j "cornerpoints" (by simp) hg) (gc_canon j "orientation" (by simp) hg)
       intro l hl'
-      refine ⟨optChildren_all subClosed_gc (fun l => l.ok = true) fromJsonLine
-        (fun x a hx hp => (fromJsonLine_closed x a hx).1 hp) j "lines" lines hg hl l hl', ?_⟩
-      simp only [Bool.not_eq_true, List.any_eq_false] at hany
-      have := hany l hl'
-      cases ht : l.text <;> simp_all
+      exact optChildren_all subClosed_gc (fun l => l.ok = true) fromJsonLine
+        (fun x a hx hp => (fromJsonLine_closed x a hx).1 hp) j "lines" lines hg hl l hl'
     · intro hs
       exact Cell.build_jv _ _ _ _ _ _ _ _ _ _ _ _ (subClosed_stable.req j _ _ hs hid)
         (asMeta_stable md m hm (subClosed_stable.req j _ _ hs hmd))
